@@ -258,6 +258,13 @@ def analyse_pair(P, C, want_replay=True):
     ring = find_ring(P)
     r, m = enc.feasible(pcs)
     out["q"]["feasible"] = r
+    # translator validation candidate: a complete schedule of the plain success scenario, to be forced natively
+    nacq = len([e for e in P.events if e.kind == "atomic"])
+    if want_replay and r == "sat" and nacq == _G.get("validate_k") and "abandoned" not in out["p"] and any("consumed all" in a for a in out["c_alts"]):
+        lab, pos_of = pick_alt("ok")
+        sch = RP.build_schedule(enc, enc.schedule(m), pos_of=pos_of)
+        out["validation"] = {"kind": "benign", "c_pick": lab, "replay": {"steps": sch.steps, "slots": sch.slots, "pre_only": sch.pre_only,
+                             "event_sites": sorted(sch.event_sites), "sites": sorted(sch.sites), "alias": sch.alias, "text": sch.text}}
     confl = enc.conflicts()
     ringp = [p for p in confl if ring is not None and (p[0][3], p[0][4][0] if p[0][4] else None) == ring]
     other = [p for p in confl if p not in ringp]
@@ -470,6 +477,8 @@ def replay_witness(ctx, c, wit, scen):
     elif "terminator" in cl and scen.get("need_not_ok"):
         unbalanced = True
     style = 1 if kind in ("ring", "other") else 0
+    if kind == "benign":
+        s2fail, unbalanced = 0, False
     adv = -(-c["limit"] // c["block"]) * c["block"]
     nbytes = adv * (scen["nbuf"] - 1) + adv // 2
     files = RP.instrument(rp["sites"])
@@ -488,7 +497,9 @@ def replay_witness(ctx, c, wit, scen):
     text = "native: %s" % "; ".join("%s %s" % kv_ for kv_ in kv.items())
     if not kv:
         text = "native run produced no VERIF-E3 line: " + out[-400:].replace("\n", " | ")
-    if kind == "stuck":
+    if kind == "benign":
+        ok = followed and kv.get("outcome") == "returned err=false" and kv.get("same") == "true"
+    elif kind == "stuck":
         ok = followed and kv.get("outcome") == "hang"
     else:
         ok = followed and (kv.get("same") == "false" or kv.get("outcome") == "hang")
@@ -530,7 +541,8 @@ def async_region(ctx, prog, c):
     ctx.queries += eng.queries
     ctx.solver_s += eng.solver_s
     q0 = eng.queries
-    _G.update({"reg": reg, "mains": mains, "prog": prog})
+    adv = -(-c["limit"] // c["block"]) * c["block"]
+    _G.update({"reg": reg, "mains": mains, "prog": prog, "validate_k": min(N, c["min_async"] // adv + 2)})
     order = sorted(range(len(mains)), key=lambda i: -len(mains[i].events))
     procs = min(16, len(mains))
     with mp.get_context("fork").Pool(procs) as pool:
@@ -587,6 +599,22 @@ def run_async(ctx, prog, c):
                     witnesses[k].append(s)
             if q["feasible"] == "unknown":
                 ctx.report_inconclusive("Q1: solver unknown on the feasibility of scenario (%s | %s)" % (s["p"], s["c"]))
+    # translator validation: force one complete schedule of the plain success scenario on the real code
+    vals = [(mains[r["i"]], s_) for r in results if "res" in r for s_ in r["res"] if "validation" in s_]
+    if vals:
+        P0, s0 = vals[0]
+        s0["nbuf"] = len([e for e in P0.events if e.kind == "atomic"])
+        s0["c_pick"] = s0["validation"]["c_pick"]
+        try:
+            okv, textv = replay_witness(ctx, c, s0["validation"], s0)
+        except common.Inconclusive as e:
+            okv, textv = False, str(e)
+        ctx.extra["translator_validation"] = {"scenario": [s0["p"], s0["c_pick"]], "steps": len(s0["validation"]["replay"]["steps"]), "native": textv, "ok": okv}
+        ctx.log("translator validation (benign schedule forced natively): %s" % textv)
+        if not okv:
+            ctx.report_inconclusive("Q1: a complete schedule of the success scenario predicted by the model could not be followed by the real code, or the result was wrong: %s" % textv)
+    else:
+        ctx.report_inconclusive("Q1: no success scenario available for translator validation")
     ctx.states += nscen
     ctx.transitions += nev * 2
     ctx.queries += nq
